@@ -549,6 +549,9 @@ Fixpoint lay_stmt (inrep : bool) (s : stmt) (st : lstate) {struct s} : lres :=
       xdo n <- lev st sc ce;
       (* repetitions_count: uint -- get_as_int(bitness=None, unsigned=True) *)
       xdo n' <- lift (get_as_int None true None n);
+      (* metacommands.MAX_REPETITIONS: the repetitions of one compilation are counted and more than 2^16 of them are
+         an error; one .repeat beyond that is modelled here, the sum over several is not *)
+      if 65536 <? n' then XErr ["value-out-of-bounds"] else
       iter_x (Z.to_nat n')
         (fun st0 =>
            (fix lay_body (l : list stmt) (st1 : lstate) : lres :=
